@@ -9,6 +9,7 @@ package checks
 
 import (
 	"fmt"
+	"regexp"
 	"sort"
 	"strings"
 
@@ -632,6 +633,10 @@ func c02Static(in *jsAnalysis, out string, c jsConfig) string {
 	return ""
 }
 
+// open finding (dependency parse/js, cover grammar): in `[x,({a:p,b:q=5}={})]` the array literal is first read as a
+// possible pattern; its identifier `x` ends up bound to a scope of its own and is renamed to a name nothing declares
+var c02CoverArrayAssign = regexp.MustCompile(`\[[A-Za-z_$][\w$]*,\(\{[^{}]*=[^{}]*\}=`)
+
 func c02Case(run *core.Run, st *jsCaseStats, label, src string, c jsConfig) {
 	run.Eval()
 	v := jsJudge(src, c)
@@ -657,6 +662,9 @@ func c02Case(run *core.Run, st *jsCaseStats, label, src string, c jsConfig) {
 		return
 	}
 	if s := c02Static(v.In, v.Out, c); s != "" {
+		if strings.HasPrefix(s, "output has a free identifier") && c02CoverArrayAssign.MatchString(src) && run.KnownSignature("js-array-literal-before-destructuring-assignment-rescoped") {
+			return
+		}
 		report(s)
 		return
 	}
